@@ -138,8 +138,27 @@ def round_trip(case, opts, workdir, ref, cleanup, check_input_names=True):
                 if hasattr(mod, "make_model") and opts.get("skip_initializers"):
                     # documented protocol of skip_initializers: make_model(<large initializers in graph order>)
                     arrays = [v for _, v in case.get("large_inits", [])]
-                    m2 = mod.make_model(*arrays)
                     out["protocol"] = "make_model"
+                    import inspect
+                    import itertools
+                    n_params = len(inspect.signature(mod.make_model).parameters)
+                    if n_params != len(arrays):
+                        # fewer / more parameters than skipped initializers: the property still holds if SOME way of filling them
+                        # with the model's own initializers reproduces the model (seeded/C13-8); try every one
+                        last = None
+                        for pick in itertools.islice(itertools.permutations(arrays, n_params), 24):
+                            try:
+                                cand = mod.make_model(*pick)
+                            except Exception:  # noqa: BLE001
+                                continue
+                            last = _compare_model(case, opts, proto, cand, ref, cleanup, check_input_names, dict(out))
+                            if last["stage"] == "ok":
+                                return last
+                        out.update(stage="mismatch", detail=f"make_model takes {n_params} parameter(s) for {len(arrays)} skipped initializers and no choice "
+                                                            f"of the model's own initializers reproduces the model ({(last or {}).get('detail', 'make_model raised')})")
+                        out["make_model_arity"] = (n_params, len(arrays))
+                        return out
+                    m2 = mod.make_model(*arrays)
                 else:
                     fns = [v for v in mod.__dict__.values() if isinstance(v, onnxscript.OnnxFunction)]
                     if not fns:
@@ -158,6 +177,16 @@ def round_trip(case, opts, workdir, ref, cleanup, check_input_names=True):
     finally:
         if modname:
             unload(modname)
+    if case["kind"] == "model":
+        return _compare_model(case, opts, proto, m2, ref, cleanup, check_input_names, out)
+    return _compare(case, opts, proto, None, fp2, ref, cleanup, check_input_names, out)
+
+
+def _compare_model(case, opts, proto, m2, ref, cleanup, check_input_names, out):
+    return _compare(case, opts, proto, m2, None, ref, cleanup, check_input_names, out)
+
+
+def _compare(case, opts, proto, m2, fp2, ref, cleanup, check_input_names, out):
     # ---- interface
     if case["kind"] == "model":
         g1, g2 = proto.graph, m2.graph
